@@ -1595,7 +1595,7 @@ impl Writer {
     match self.qos_policies.compliance_failure_wrt(requested_qos) {
       // matched QoS
       None => {
-        let change = self.matched_reader_update(reader_proxy);
+        let change = self.matched_reader_update(reader_proxy, requested_qos.is_volatile());
         if change > 0 {
           self.matched_readers_count_total += change;
           self.send_status(DataWriterStatus::PublicationMatched {
@@ -1650,9 +1650,16 @@ impl Writer {
   // Update the given reader proxy. Preserve data we are tracking.
   // return 0 if the reader already existed
   // return 1 if it was new ( = count of added reader proxies)
-  fn matched_reader_update(&mut self, updated_reader_proxy: &RtpsReaderProxy) -> i32 {
+  fn matched_reader_update(
+    &mut self,
+    updated_reader_proxy: &RtpsReaderProxy,
+    reader_is_volatile: bool,
+  ) -> i32 {
     let mut new = 0;
-    let is_volatile = self.qos().is_volatile(); // Get this in advance to work with the borrow checker
+    // Get this in advance to work with the borrow checker.
+    // A reader that requests Durability::Volatile does not want the history
+    // either, even if we would have it to offer.
+    let is_volatile = self.qos().is_volatile() || reader_is_volatile;
     self
       .readers
       .entry(updated_reader_proxy.remote_reader_guid)
